@@ -27,7 +27,7 @@ def exhaustive(tier):
 
 
 def required(tier):
-    return ["table_complete", "res%3==1", "res%3==2", "dist:thr", "dist:thr+1", "first_note_tap", "first_note_strum"]
+    return ["table_complete", "res%3==1", "res%3==2", "dist:thr", "dist:thr+1", "first_note_tap", "first_note_strum", "track_with_thousands_of_notes"]
 
 
 def resolutions(tier, seed):
@@ -139,7 +139,9 @@ def run_shard(shard, rec, tier, seed):
         for i in range(shard["count"]):
             rng = harness.rng_for(seed, ID, shard["name"], i)
             case = gen.gen_chart(rng, "hostile" if i % 2 else "realistic", n_tracks=rng.choice([1, 2]),
-                                 n_groups=rng.choice([2, 10, 60, 200]), n_globals=0, n_tempos=2)
+                                 n_groups=rng.choice([2, 10, 60, 200]) if i % 20 != 1 else rng.choice([3000, 4500, 9000]), n_globals=0, n_tempos=2)
+            if i % 20 == 1:
+                rec.cls("track_with_thousands_of_notes")
             out, ob, d = mcheck.judge(rec, ("C04",), case)
             if d is not None and not d.of("C04"):
                 rec.key(case["text"])
